@@ -9,7 +9,7 @@ ROLES = {
     "M": ["none", "read", "assign", "aug", "walrus", "for", "def", "class", "import", "comp", "fortuple", "whilewalrus", "forwalrus"],
     "F": ["none", "read", "assign", "aug", "walrus", "param", "for", "comp", "gassign", "gread", "gaug", "nassign", "nread", "naug", "def", "class", "import", "kwparam", "starparam", "paramassign", "paramaug", "whilewalrus", "forwalrus"],
     "C": ["none", "read", "assign", "aug", "for", "gassign", "nassign", "readassign", "def", "import", "walrusless", "whilewalrus", "forwalrus"],
-    "L": ["none", "read", "param", "walrus", "default"],
+    "L": ["none", "read", "param", "walrus", "default", "compwalrus"],
     "G": ["none", "read", "target", "walrus", "readiter", "readcond"],
     "E": ["none", "read", "target", "readiter"],
 }
@@ -43,6 +43,36 @@ def trees(nscopes, maxdepth=4):
 
     for ch in sub(nscopes - 1, 2):
         yield ("M", ch)
+
+
+CHAIN_ROLES = {
+    "M": ["none", "assign"],
+    "F": ["none", "read", "assign", "param", "gassign", "gread", "nassign", "nread", "naug"],
+    "C": ["none", "read", "assign", "gassign", "readassign"],
+    "L": ["read", "walrus", "compwalrus"],
+    "G": ["read", "target"],
+    "E": ["read"],
+}
+
+
+def deep_chains(nscopes):
+    """chains (one child per scope) of exactly nscopes scopes with roles from the reduced catalogue CHAIN_ROLES"""
+    def kinds(n, prev):
+        if n == 0:
+            yield ()
+            return
+        for k in ("F", "C", "L", "G", "E"):
+            if prev in "LGE" and k in "FC":
+                continue
+            for rest in kinds(n - 1, k):
+                yield (k,) + rest
+
+    for ks in kinds(nscopes - 1, "M"):
+        for roles in itertools.product(*[CHAIN_ROLES[k] for k in ("M",) + ks]):
+            t = None
+            for k, r in reversed(list(zip(("M",) + ks, roles))):
+                t = (k, r, (t,) if t else ())
+            yield t
 
 
 def assign_roles(t):
@@ -144,6 +174,10 @@ def expr(t, path):
             parts.append("show(x)")
         if role == "walrus":
             parts.append("(x := %s)" % V)
+            parts.append("show(x)")
+        if role == "compwalrus":
+            # a walrus in a comprehension inside the lambda binds a local of the lambda
+            parts.append("[(x := %s) for q_ in [0]]" % V)
             parts.append("show(x)")
         if inner:
             parts.append(inner)
